@@ -378,6 +378,29 @@ def run(ck):
         scale_event("simplify:bv_op_over_ite_chain", len(order), len(cnt.calls) if res == "ok" else 0, res, K=1, slack=8)
     else:
         scale_event("construct:bv_op_over_ite_chain", 1, 0, res)
+    # the same with the chain nested in the ELSE position (an if / elif / ... / else ladder)
+    pysmt.environment.reset_env()
+    env_e = pysmt.environment.get_env()
+    c_stc_e = Counter(env_e.stc)
+    me = env_e.formula_manager
+    box_e = []
+
+    def build_else_ladder():
+        p = me.Symbol("p0", BOOL)
+        cur = me.Symbol("v0", BVType(4))
+        one = me.BV(1, 4)
+        for _ in range(depth_chain if not quick else 6000):
+            cur = me.Ite(p, one, cur)
+        box_e.append(me.BVAdd(me.BVNot(cur), cur))
+    res_e = timed(build_else_ladder, 60)
+    if box_e:
+        order_e, idx_e, kids_e = real_dag(box_e[0])
+        scale_event("construct:bv_op_over_else_nested_ite_ladder", len(order_e), len(c_stc_e.calls), res_e, K=1, slack=8)
+        cnt_e = Counter(env_e.simplifier)
+        res_e = timed(lambda: box_e[0].simplify())
+        scale_event("simplify:bv_op_over_else_nested_ite_ladder", len(order_e), len(cnt_e.calls) if res_e == "ok" else 0, res_e, K=1, slack=8)
+    else:
+        scale_event("construct:bv_op_over_else_nested_ite_ladder", 1, 0, res_e)
     # construction interleaved with REJECTED constructions (ill-typed applications raise): the type checker's
     # knowledge of the existing sub-formulas must survive a rejection, so the total type-checking work stays
     # linear in the nodes built (rejected nodes included)
